@@ -195,3 +195,48 @@ Proof.
     replace (last - c1) with ((c2 - c1) + (last - c2)) by lia.
     rewrite (main_rows_split d o (c2 - c1) (last - c2) c1). replace (c1 + (c2 - c1)) with c2 by lia. reflexivity.
 Qed.
+
+(* ---- C03: the body of an export is the grid of the stages, minus empty and all-null rows, in order *)
+Definition kept_row (row : list string) : bool := match row with [] => false | _ => negb (all_nullish row) end.
+
+Theorem main_rows_filter_map d o : forall n a rows,
+  (forall k, k < n -> row_of_stage d o (nth (a + k) (d_stages d) []) = Ok (rows k)) ->
+  main_rows d o a n = Ok (filter kept_row (map rows (seq 0 n))).
+Proof.
+  induction n as [|n IH]; intros a rows H; [reflexivity|].
+  cbn [main_rows]. pose proof (H 0 ltac:(lia)) as H0. rewrite Nat.add_0_r in H0. rewrite H0.
+  rewrite (IH (S a) (fun k => rows (S k))).
+  - cbn [seq map filter]. rewrite <- seq_shift, map_map. unfold kept_row. destruct (rows 0) as [|c r] eqn:E; [reflexivity|].
+    destruct (all_nullish (c :: r)); reflexivity.
+  - intros k Hk. replace (S a + k) with (a + S k) by lia. apply H. lia.
+Qed.
+
+(* with every spine selected each stage contributes one cell per node: the exported grid has the widths of the stages *)
+Theorem full_selection_grid d o n a :
+  (forall k id, k < n -> In id (nth (a + k) (d_stages d) []) -> spine_selected o (header_type d id) = true) ->
+  forall rows, main_rows d o a n = Ok rows ->
+  exists cells, (forall k, k < n -> row_cells d (o_cats o) (o_enc o) (nth (a + k) (d_stages d) []) = Ok (cells k)) /\
+                rows = filter kept_row (map cells (seq 0 n)) /\
+                (forall k, k < n -> List.length (cells k) = List.length (nth (a + k) (d_stages d) [])).
+Proof.
+  revert a. induction n as [|n IH]; intros a Hsel rows Hm.
+  - exists (fun _ => []). cbn in Hm. injection Hm as <-. repeat split; intros; lia.
+  - cbn [main_rows] in Hm.
+    assert (H0 : row_of_stage d o (nth a (d_stages d) []) = row_cells d (o_cats o) (o_enc o) (nth a (d_stages d) [])).
+    { apply select_all_row. intros id Hin. apply (Hsel 0 id ltac:(lia)). now rewrite Nat.add_0_r. }
+    rewrite H0 in Hm. destruct (row_cells d (o_cats o) (o_enc o) (nth a (d_stages d) [])) as [c0|] eqn:E0; [|discriminate].
+    destruct (main_rows d o (S a) n) as [rest|] eqn:Er; [|discriminate].
+    assert (Hsel' : forall k id, k < n -> In id (nth (S a + k) (d_stages d) []) -> spine_selected o (header_type d id) = true).
+    { intros k id Hk Hin. apply (Hsel (S k) id ltac:(lia)). now replace (a + S k) with (S a + k) by lia. }
+    destruct (IH (S a) Hsel' rest Er) as [cells [Hc [Hr Hl]]].
+    exists (fun k => match k with O => c0 | S k' => cells k' end). split; [|split].
+    + intros [|k] Hk; [now rewrite Nat.add_0_r | replace (a + S k) with (S a + k) by lia; apply Hc; lia].
+    + injection Hm as <-. cbn [seq map filter]. rewrite <- seq_shift, map_map.
+      change (filter kept_row (map (fun x => cells x) (seq 0 n))) with (filter kept_row (map cells (seq 0 n))). rewrite <- Hr. unfold kept_row.
+      destruct c0; [reflexivity|]. destruct (all_nullish _); reflexivity.
+    + assert (Len : forall ids cs, row_cells d (o_cats o) (o_enc o) ids = Ok cs -> List.length cs = List.length ids).
+      { induction ids as [|i ids IHi]; intros cs Hcs; cbn [row_cells] in Hcs; [injection Hcs as <-; reflexivity|].
+        destruct (cell_of _ _ _ i); [|discriminate]. destruct (row_cells _ _ _ ids) eqn:Ei; [|discriminate]. injection Hcs as <-.
+        cbn. f_equal. apply IHi. reflexivity. }
+      intros [|k] Hk; [rewrite Nat.add_0_r; apply Len, E0 | replace (a + S k) with (S a + k) by lia; apply Hl; lia].
+Qed.
